@@ -3,6 +3,7 @@ package checks
 import (
 	"fmt"
 	"runtime"
+	"strings"
 	"sync"
 	"testing"
 
@@ -32,6 +33,7 @@ type c19Out struct {
 	rows  string
 	err   string
 	store string
+	plan  string // what the plan says about itself: explain lines, field names and types
 }
 
 // runQuiet plans and drains one statement without touching package globals.
@@ -46,6 +48,7 @@ func runQuiet(q string, st kvql.Storage, mode string, npairs int) (out c19Out) {
 		out.err = "build: " + err.Error()
 		return
 	}
+	out.plan = fmt.Sprint(plan.Explain(), plan.FieldNameList(), plan.FieldTypeList())
 	ctx := kvql.NewExecuteCtx()
 	var rows [][]any
 	for polls := 0; polls < 4*npairs+len(q)+64; polls++ {
@@ -188,6 +191,26 @@ func TestC19(t *testing.T) {
 				} else {
 					pc := rapid.SampledFrom([]string{"0.1", "0.25", "0.5", "0.75", "0.9", "1.0"}).Draw(rt, "percent")
 					q = fmt.Sprintf("select %s as s0, s0 * 1.0 as s1, s1 + 0.0 as s2, quantile(strlen(key), s2) where key >= '' group by s0, s1, s2", pc)
+				}
+				c.Stmts = append(c.Stmts, nil)
+				c.Queries = append(c.Queries, q)
+				c.Modes = append(c.Modes, rapid.SampledFrom([]string{"row", "batch"}).Draw(rt, "mode"))
+				c.Writers = append(c.Writers, false)
+				continue
+			case 7:
+				// names the process has not printed before (a name nobody
+				// defines stands for its own text), in the plan's description of
+				// itself and in the message of a refusal
+				nm := func(l string) string {
+					n := rapid.StringMatching(`[a-z]{6}`).Draw(rt, l)
+					if rapid.IntRange(0, 2).Draw(rt, l+"Quoted") == 0 {
+						return "`" + strings.ToUpper(n[:1]) + " " + n[1:] + "`"
+					}
+					return "q" + n
+				}
+				q := fmt.Sprintf("select key, upper(%s), %s where key >= '' & str(%s) != 'q'", nm("n1"), nm("n2"), nm("n3"))
+				if rapid.IntRange(0, 2).Draw(rt, "refused") == 0 {
+					q = fmt.Sprintf("select key where %s & key >= ''", nm("n4"))
 				}
 				c.Stmts = append(c.Stmts, nil)
 				c.Queries = append(c.Queries, q)
